@@ -21,6 +21,7 @@ import GraphiqModel.Proofs.HilbertDimHistory
 import GraphiqModel.Proofs.HilbertDimKet
 import GraphiqModel.Proofs.HilbertDimReset
 import GraphiqModel.Proofs.HilbertDimMix
+import GraphiqModel.Proofs.HilbertDimProg
 namespace Graphiq.C07
 open Graphiq Graphiq.PRow Graphiq.Tab
 
@@ -1259,5 +1260,84 @@ theorem stabilizer_state_is_ket (t : Tab) (hv : t.Valid) (hr : t.StabReal) :
 example : ∃ ψ : Bits 3 → ℂ, rho 3 (STab.ofTab ghz3) = Matrix.vecMulVec ψ (star ψ) ∧ star ψ ⬝ᵥ ψ = 1 := by
   obtain ⟨ψ, h1, h2, _⟩ := stabilizer_state_is_ket ghz3 ghz3_valid ghz3_stabReal
   exact ⟨ψ, h1, h2⟩
+
+/-! ### 7.7 programs: histories combined with `tensor`, from `CliffordTableau(n)` -/
+
+/-- **Program theorem (no hypothesis on the state left).**  A program starts from `CliffordTableau(n)` (or from given
+    valid tableaux), runs histories of API calls and combines results with `tensor`.  Whenever the model runs it to a
+    tableau `t`: `t` is valid, its stabilizer rows are real, and its density matrix — number of qubits included — is the
+    denotation `Prog.den`, which is defined in Hilbert space only: `|0…0⟩⟨0…0|` for `CliffordTableau(n)`, the quantum
+    operations `dOps` for a history, the Kronecker product for `tensor`. -/
+theorem program_tracks_density (p : Prog) : ∀ t, p.WF → p.run = .ok t → t.Valid ∧ t.StabReal ∧ dstate t = p.den := by
+  induction p with
+  | leaf t0 =>
+    intro t hw h
+    simp only [Prog.run, Except.ok.injEq] at h
+    subst h
+    exact ⟨hw.1, hw.2, rfl⟩
+  | init n =>
+    intro t _ h
+    simp only [Prog.run, Except.ok.injEq] at h
+    subst h
+    exact ⟨ket0_is_valid n, ket0_stabReal n, dstate_ket0 n⟩
+  | seq p ops ih =>
+    intro t hw h
+    simp only [Prog.run] at h
+    cases hp : p.run with
+    | error e => rw [hp] at h; cases h
+    | ok t0 =>
+      rw [hp] at h
+      obtain ⟨v0, r0, d0⟩ := ih t0 hw.1 hp
+      have hops : ∀ op ∈ ops, WF op := fun op hop => (wf_iff op).mpr (hw.2 op hop)
+      obtain ⟨v, r, _⟩ := history_tracks_state ops hops t0 t v0 r0 h
+      refine ⟨v, r, ?_⟩
+      rw [history_tracks_density ops hops t0 t v0 r0 h, d0]
+      rfl
+  | tensor p q ihp ihq =>
+    intro t hw h
+    simp only [Prog.run] at h
+    cases hp : p.run with
+    | error e => rw [hp] at h; cases h
+    | ok a =>
+      rw [hp] at h
+      cases hq : q.run with
+      | error e => rw [hq] at h; cases h
+      | ok b =>
+        rw [hq] at h
+        simp only [Except.ok.injEq] at h
+        subst h
+        obtain ⟨va, ra, da⟩ := ihp a hw.1 hp
+        obtain ⟨vb, rb, db⟩ := ihq b hw.2 hq
+        refine ⟨tensor_valid a b va vb, tensor_stab_real a b ra rb, ?_⟩
+        rw [dstate_tensor, da, db]
+        rfl
+
+/-- `(Bell pair from |00⟩ by H, CNOT) ⊗ (|0⟩ measured)`, then a swap and a partial trace: accepted, so the theorem applies -/
+example : ∃ t, (Prog.seq (Prog.tensor (Prog.seq (Prog.init 2) [.h 0, .cnot 0 1]) (Prog.seq (Prog.init 1) [.meas 0 true]))
+      [.swap 0 2, .ptrace [0, 1] [true]]).run = .ok t ∧
+    dstate t = (Prog.seq (Prog.tensor (Prog.seq (Prog.init 2) [.h 0, .cnot 0 1]) (Prog.seq (Prog.init 1) [.meas 0 true]))
+      [.swap 0 2, .ptrace [0, 1] [true]]).den := by
+  have hw : (Prog.seq (Prog.tensor (Prog.seq (Prog.init 2) [.h 0, .cnot 0 1]) (Prog.seq (Prog.init 1) [.meas 0 true]))
+      [.swap 0 2, .ptrace [0, 1] [true]]).WF := by
+    refine ⟨⟨⟨trivial, ?_⟩, ⟨trivial, ?_⟩⟩, ?_⟩
+    · intro op hop
+      simp only [List.mem_cons, List.mem_nil_iff, or_false] at hop
+      rcases hop with rfl | rfl
+      · trivial
+      · show (0 : Nat) ≠ 1; decide
+    · intro op hop
+      simp only [List.mem_cons, List.mem_nil_iff, or_false] at hop
+      subst hop; trivial
+    · intro op hop
+      simp only [List.mem_cons, List.mem_nil_iff, or_false] at hop
+      rcases hop with rfl | rfl <;> trivial
+  cases hrun : (Prog.seq (Prog.tensor (Prog.seq (Prog.init 2) [.h 0, .cnot 0 1]) (Prog.seq (Prog.init 1) [.meas 0 true]))
+      [.swap 0 2, .ptrace [0, 1] [true]]).run with
+  | error e =>
+    exfalso
+    have : (match (Prog.seq (Prog.tensor (Prog.seq (Prog.init 2) [.h 0, .cnot 0 1]) (Prog.seq (Prog.init 1) [.meas 0 true]))
+      [.swap 0 2, .ptrace [0, 1] [true]]).run with | .ok _ => true | .error _ => false) = true := by decide +kernel
+    rw [hrun] at this; cases this
+  | ok t => exact ⟨t, rfl, (program_tracks_density _ t hw hrun).2.2⟩
 
 end Graphiq.C07
